@@ -123,7 +123,10 @@ struct Interp {
             if (got[3].first) { rest += got[3].second; if (got[4].first) rest += ":" + got[4].second; }
             if (got[5].first) rest += got[5].second;
             if (got[6].first) rest += "?" + got[6].second;
-            shaped = (text == a + rest) || ((got[3].first || got[0].first) && text == a + "//" + rest);
+            // the accepted shape has a host - "[proto:][//][user[:passwd]@]host[:port][/path][?query]" - or is a bare path
+            bool bare_path = !got[0].first && !got[1].first && !got[2].first && !got[3].first && !got[4].first && got[5].first && got[5].second.compare(0, 2, "//") != 0;
+            if (got[3].first) shaped = (text == a + rest) || (text == a + "//" + rest);
+            else shaped = bare_path && text == rest;
         }
         if (shaped) { roundtrip(text); ctx.label("raw-bytes:accepted-shape"); }
         else { roundtrip(text, false); ctx.label("raw-bytes:safety-only"); }
